@@ -9,7 +9,9 @@ class CamH(MethodHarness):
     def make(self):
         from transactron.lib.storage import ContentAddressableMemory
         c = self.cfg
-        cam = ContentAddressableMemory([("a", c["kw"])], [("d", c["dw"])], c["entries"])
+        # "dfields": 2 = the data layout has two fields (values of the model are then pairs)
+        dl = [("d", c["dw"])] + ([("e", c["dw"])] if c.get("dfields", 1) == 2 else [])
+        cam = ContentAddressableMemory([("a", c["kw"])], dl, c["entries"])
         return cam, [("read", "t", cam.read), ("remove", "t", cam.remove), ("push", "t", cam.push), ("write", "t", cam.write)]
 
     def alphabet(self, ref):
@@ -19,9 +21,10 @@ class CamH(MethodHarness):
             c = self.cfg
             K, D = 1 << c["kw"], 1 << c["dw"]
             pl, wl = self.port["push"].in_layout, self.port["write"].in_layout
-            push = [(0, 0)] + [(1, pack(pl, {"addr": {"a": k}, "data": {"d": d}})) for k in range(K) if k not in keys
-                               for d in range(D)]
-            write = [(0, 0)] + [(1, pack(wl, {"addr": {"a": k}, "data": {"d": d}})) for k in range(K) for d in range(D)]
+            two = c.get("dfields", 1) == 2
+            dvals = [{"d": d, "e": e} for d in range(D) for e in range(D)] if two else [{"d": d} for d in range(D)]
+            push = [(0, 0)] + [(1, pack(pl, {"addr": {"a": k}, "data": dv})) for k in range(K) if k not in keys for dv in dvals]
+            write = [(0, 0)] + [(1, pack(wl, {"addr": {"a": k}, "data": dv})) for k in range(K) for dv in dvals]
             rk = [(0, 0)] + [(1, k) for k in range(K)]
             cache[keys] = self.product({"read": rk, "remove": rk, "push": push, "write": write})
         return cache[keys]
@@ -32,6 +35,7 @@ class CamH(MethodHarness):
         c = self.calls(inp, obs)
         rd, rm, pu, wr = c["read"], c["remove"], c["push"], c["write"]
         v = []
+        dv = (lambda x: (x["d"], x["e"])) if cfg.get("dfields", 1) == 2 else (lambda x: x["d"])
         if rd.done != rd.en or rm.done != rm.en or wr.done != wr.en:
             v.append("ready: read/remove/write are always ready")
         if pu.done != (pu.en and len(d) < cfg["entries"]):
@@ -40,7 +44,7 @@ class CamH(MethodHarness):
             r = self.port["read"].ret(rd.out)
             k = self.port["read"].arg(rd.data)["addr"]["a"]
             if k in d:
-                if r["not_found"] or r["data"]["d"] != d[k]:
+                if r["not_found"] or dv(r["data"]) != d[k]:
                     v.append(f"read.hit: key {k} -> {r} expected data {d[k]}")
             elif not r["not_found"]:
                 v.append(f"read.miss: key {k} absent but not_found=0")
@@ -61,12 +65,12 @@ class CamH(MethodHarness):
             self.count("nt_push_refused")
         nd = dict(d)
         if wr.done and wa["addr"]["a"] in nd:
-            nd[wa["addr"]["a"]] = wa["data"]["d"]
+            nd[wa["addr"]["a"]] = dv(wa["data"])
         if rm.done and rk in nd:
             del nd[rk]
         if pu.done:
             pa = self.port["push"].arg(pu.data)
-            nd[pa["addr"]["a"]] = pa["data"]["d"]
+            nd[pa["addr"]["a"]] = dv(pa["data"])
         return v, tuple(sorted(nd.items()))
 
 
@@ -78,7 +82,8 @@ def jobs(tier):
         small = [(1, 1, 1), (1, 2, 2), (2, 1, 1), (2, 1, 2), (3, 1, 1)]
         big = [(2, 2, 1), (3, 2, 1), (2, 2, 2), (3, 1, 2)]
     mk = lambda g: [E1("checks.c24", "CamH", {"entries": e, "kw": k, "dw": d}) for e, k, d in g]  # noqa: E731
-    return mk(small), mk(big)
+    two = [E1("checks.c24", "CamH", {"entries": e, "kw": 1, "dw": 1, "dfields": 2}) for e in ((1, 2) if tier == "quick" else (1, 2, 3))]
+    return mk(small) + two, mk(big)
 
 
 def run(rep, tier):
